@@ -30,11 +30,22 @@ def compare(g, text, version, fail):
         try:
             nb = sorted(x.name for x in s.neighbours)
             wn = []
+            lines_seen = []
             for key in ("dovetails_L", "dovetails_R"):
                 for l in getattr(s, key):
+                    if any(l is x for x in lines_seen):
+                        continue              # a link joining the two ends of the segment is one line: one neighbour entry
+                    lines_seen.append(l)
                     o = l.other(s)
+                    # the segment may be named instead of handed over
+                    try:
+                        o2 = l.other(s.name)
+                        if (o2.name if hasattr(o2, "name") else str(o2)) != (o.name if hasattr(o, "name") else str(o)):
+                            fail("other-by-name-differs", "%s.other(%r) = %s, other(segment) = %s" % (l, s.name, o2, o))
+                    except gfapy.Error as e:
+                        fail("other-by-name-raises-%s" % type(e).__name__, "%s.other(%r)" % (l, s.name))
                     wn.append(o.name if hasattr(o, "name") else str(o))
-            if sorted(set(nb)) != sorted(set(wn)):
+            if sorted(nb) != sorted(wn):
                 fail("neighbours-differ", "%s: %s vs %s" % (s.name, nb, wn))
         except gfapy.Error:
             pass
